@@ -25,9 +25,10 @@ def case(name, pat, n, tag):
              {"src": f"(drive@@ {n})", "class": "ok"},
              {"src": "(#%gc-collect)", "class": "ok"},
              # accounting and boundedness after a full collection
-             {"op": "heap_stats", "class": "ok", "emit": ["slots<=bound", "accounting:exact", "slots<=bound", "accounting:exact"]},
+             {"op": "heap_stats", "class": "ok", "emit": ["slots<=bound", "accounting:exact", "live:small", "slots<=bound", "accounting:exact", "live:small"]},
              {"src": f"(drive@@ {n})", "class": "ok"},
-             {"op": "heap_stats", "class": "ok", "emit": ["slots<=bound", "accounting:exact", "slots<=bound", "accounting:exact"]}]
+             {"src": "(#%gc-collect)", "class": "ok"},
+             {"op": "heap_stats", "class": "ok", "emit": ["slots<=bound", "accounting:exact", "live:small", "slots<=bound", "accounting:exact", "live:small"]}]
     return {"id": f"{tag}-{name}-{n}", "fresh": True, "tag": f"pattern:{name}", "steps": steps}
 
 
@@ -62,8 +63,8 @@ def run(tier, seed):
         r.add_cases(tagged, verdicts, nontrivial=lambda c: True)
     r.cov["rule"] = (f"Heap.tla invariants C19a (accounting) and C19b (precision after a full collection) for every history; "
                      f"10 garbage patterns (acyclic, cycles through boxes / mutable vectors / mutable structs / closures / continuations / hash maps) "
-                     f"x {n} iterations twice on the real engine: the slot count stays under a fixed bound and the accounted free count equals the "
-                     f"number of free slots (heap_stats hook); weak boxes of dropped targets report #false after a collection")
+                     f"x {n} iterations twice on the real engine: after a full collection at most 2000 slots are still marked reachable, the slot count stays under a fixed bound and "
+                     f"the accounted free count equals the number of free slots (heap_stats hook); weak boxes of dropped targets report #false after a collection")
     return r.finish()
 
 
